@@ -89,6 +89,9 @@ func ctrlRefs(fl Flavour, class string, variant int) []Ref {
 	return append(extra, c...)
 }
 
+var DryRunVerdicts = []string{"reject", "reject:Forbidden", "reject:BadRequest", "reject:Conflict", "reject:Unauthorized",
+	"reject:MethodNotAllowed", "reject:TooLarge", "error", "error:TooManyRequests", "error:Timeout", "error:ServerTimeout",
+	"error:ServiceUnavailable", "error:Gone"}
 var RevClasses = []string{"", "1", "2", "3", "4", "abc"}
 var CPs = []string{"Prevent", "IfNoController", "None", ""}
 
@@ -167,7 +170,18 @@ func PreflightTable(fl Flavour) []Scn {
 		func(p *PObj) { p.Kind = "ClThing"; p.NS = "ns1" },
 		func(p *PObj) { p.Kind = "ClThing"; p.NS = "ns2" },
 		func(p *PObj) { p.DryRun = "reject" },
+		func(p *PObj) { p.DryRun = "reject:Forbidden" },
+		func(p *PObj) { p.DryRun = "reject:BadRequest" },
+		func(p *PObj) { p.DryRun = "reject:Conflict" },
+		func(p *PObj) { p.DryRun = "reject:Unauthorized" },
+		func(p *PObj) { p.DryRun = "reject:MethodNotAllowed" },
+		func(p *PObj) { p.DryRun = "reject:TooLarge" },
 		func(p *PObj) { p.DryRun = "error" },
+		func(p *PObj) { p.DryRun = "error:TooManyRequests" },
+		func(p *PObj) { p.DryRun = "error:Timeout" },
+		func(p *PObj) { p.DryRun = "error:ServerTimeout" },
+		func(p *PObj) { p.DryRun = "error:ServiceUnavailable" },
+		func(p *PObj) { p.DryRun = "error:Gone" },
 		func(p *PObj) { p.NS = "ns1" },
 	}
 	for _, mode := range []string{"reconcile", "teardown"} {
@@ -242,7 +256,7 @@ func Random(r *rand.Rand, fl Flavour) Scn {
 		case 4:
 			p.Preset = true
 		case 5:
-			p.DryRun = pick(r, []string{"reject", "error"})
+			p.DryRun = pick(r, DryRunVerdicts)
 		}
 		s.Objects = append(s.Objects, p)
 		if r.Intn(4) != 0 && p.Kind != "Ghost" {
